@@ -23,7 +23,8 @@ RULE = ('cases = small deterministic chart (may reach a final state), runner opt
         'execute_all); before_run/after_run exactly once; every queued uid consumed at most once '
         'and consumed + still pending == queued, in the order of a queue model fed with the '
         'linearised calls; after pause() returned at most one cycle starts before the next '
-        'unpause() (a stop() in between included); stop() returns, the thread is dead and nothing executes afterwards; a '
+        'unpause() (a stop() in between included; none at all if no cycle was under way); a second '
+        'runner started on the then final statechart ends by itself without a cycle; stop() returns, the thread is dead and nothing executes afterwards; a '
         'final statechart ends the runner by itself. Non-trivial = a client operation '
         'interleaved inside a runner cycle, or a pause/stop landing between the wait gate and '
         'the cycle start; distinct = sha1(scripts, consumed schedule prefix).')
@@ -236,6 +237,28 @@ def run_schedule(case):
             runner.stop()
             log.append(('op-return', 0, 'final-stop'))
             log.append(('alive-after-stop', runner.running))
+            if interp.final:
+                # a second runner started on the statechart that is already final: it stops by
+                # itself without a single cycle (before_run and after_run once each)
+                class Runner2(AsyncRunner):
+                    def __del__(self):       # (never stop() from the garbage collector)
+                        pass
+
+                    def before_run(self):
+                        log.append(('r2-before_run',))
+
+                    def after_run(self):
+                        log.append(('r2-after_run',))
+
+                    def before_execute(self):
+                        log.append(('r2-before_execute',))
+                        if sum(1 for x in log if x[0] == 'r2-before_execute') >= 3:
+                            self._stop.set()      # (harness: do not spin for ever)
+                r2 = Runner2(interp, interval=case['interval'],
+                             execute_all=case['execute_all'])
+                r2.start()
+                r2.wait()
+                log.append(('r2-done',))
         status = sched.run_main(main)
         obs['status'] = status
         obs['thread_errors'] = [(t.name, type(t.exc).__name__, str(t.exc)[:200])
@@ -291,6 +314,13 @@ def oracle(case):
                       pause_raced_stop=pause_raced, granularity=gran,
                       tail=[list(map(str, x)) for x in log[-8:]]))
         return finish(case, obs, viol, labels)
+    if 'r2-done' in names:
+        labels['second runner started on a final statechart'] = 1
+        if names.count('r2-before_execute') or names.count('r2-before_run') != 1 \
+                or names.count('r2-after_run') != 1:
+            viol.append(V('runner-on-final-statechart', cycles=names.count('r2-before_execute'),
+                          before_run=names.count('r2-before_run'),
+                          after_run=names.count('r2-after_run'), granularity=gran))
     if names.count('before_run') != 1:
         viol.append(V('before_run-count', count=names.count('before_run')))
     if names.count('after_run') != 1:
